@@ -12,6 +12,8 @@ type Header struct {
 	Channels         uint8 // 3 bits
 	FrameLength      int   // 13 bits: header + CRC + payload
 	CRC              uint16
+	// Blocks is number_of_raw_data_blocks_in_frame (2 bits): 0 = the frame holds one raw data block
+	Blocks uint8
 }
 
 // Write renders one ADTS frame with a single raw data block.
@@ -52,6 +54,7 @@ func Parse(b []byte) (Header, []byte, []byte, error) {
 	h.SFI = (b[2] >> 2) & 0xf
 	h.Channels = (b[2]&1)<<2 | b[3]>>6
 	h.FrameLength = int(b[3]&3)<<11 | int(b[4])<<3 | int(b[5]>>5)
+	h.Blocks = b[6] & 3
 	hl := 7
 	if h.ProtectionAbsent == 0 {
 		hl = 9
